@@ -144,8 +144,8 @@ func (n *Net) CheckpointBlock(b *B) *B {
 
 // BlockOpt tunes one block.
 type BlockOpt struct {
-	Slot         int    // timestamp = parent + Slot*interval (default 1)
-	Tag          byte   // makes siblings distinct (coinbase arbitrary)
+	Slot         int  // timestamp = parent + Slot*interval (default 1)
+	Tag          byte // makes siblings distinct (coinbase arbitrary)
 	Txs          []*types.Tx
 	CoinbaseProg []byte // default OP_TRUE
 	Name         string
